@@ -568,6 +568,11 @@ class SecpFamily:
                 for X, Y in pairs:
                     for _ in range(2):
                         yield dict(args=[self.jac(X, rng), self.jac(Y, rng)])
+                    # mixed representations: one operand affine-lifted (z = 1), the other with a general z, in both orders
+                    if X is not None and Y is not None:
+                        yield dict(args=[[X[0], X[1], 1], self.jac(Y, rng)])
+                        yield dict(args=[self.jac(X, rng), [Y[0], Y[1], 1]])
+                        yield dict(args=[[X[0], X[1], 1], [Y[0], Y[1], 1]])
             elif name == "jacobian_double" or name == "from_jacobian":
                 for X in (A, B, None):
                     yield dict(args=[self.jac(X, rng)])
